@@ -501,7 +501,8 @@ fn write_behind(r: &mut Rng, poll: bool, long: bool) -> (Header, Vec<O>) {
 }
 
 // ------------------------------------------------------------------ part 2: multi-threaded, oracle only
-struct MtReport { runs: u64, ops: u64, fails: Vec<(String, String, String)> }
+#[derive(Default)]
+struct MtReport { runs: u64, ops: u64, fails: Vec<(String, String, String)>, rr_sequences: u64, rr_removes: u64, rr_max_resident: u64 }
 
 fn mt_cache_run(seed: u64, rep: &mut MtReport) {
     let mut r = Rng::new(seed ^ 0xC16);
@@ -558,6 +559,80 @@ fn mt_cache_run(seed: u64, rep: &mut MtReport) {
     } else { std::mem::forget(cache); }
     fs.truncate(3);
     for (s, d) in fs { rep.fails.push((s, d, desc.clone())); }
+}
+
+/// "remove vs re-insert" (oracle only): per group one remover walks a stream of fresh keys (each key is inserted, removed
+/// once through `OccupiedEntry::remove`, re-inserted) and 3–7 inserter threads spin on inserting the current key whenever
+/// they find it vacant, i.e. exactly when the remover has just taken it out.  Nothing is ever pinned, small capacity, both
+/// strategies.  `Insert(K)` / `Removed(K)` must reach the write buffer in the order of the storage operations on K (both are
+/// pushed under K's bucket lock: Lemmas/TinyLfuMsgOrder.lean, `tracked_iff_resident_after_drain`); if `Removed(K)` of the
+/// old incarnation is overtaken by `Insert(K)` of the new one, the policy forgets a resident entry for good.
+/// Judgement after the threads have stopped: no-op notifications run two maintenance passes (so every message the
+/// threads buffered has been processed and whatever is buffered now is a no-op notification of a never-inserted key),
+/// nothing is pinned: `bounded_quiescent` (Props/C16.lean) gives resident <= window + main capacity, exactly.  Then
+/// capacity + 40 fresh keys go through the cache, two more passes: the same bound again (a surplus is resident for good).
+const SIG_MT_LEAK: &str = "mt-leak:resident-untracked-after-remove-reinsert";
+fn mt_remove_reinsert(seed: u64, budget: std::time::Duration, rep: &mut MtReport) {
+    let mut r = Rng::new(seed ^ 0x5EED_C16A);
+    let cap = r.range(1, 12) as usize; let poll = r.chance(1, 2); let groups = r.range(1, 2); let inserters = r.range(3, 7);
+    let desc = format!("mt-remove-reinsert seed={seed} cap={cap} {} groups={groups} inserters/remover={inserters} ms={}", if poll { "Poll" } else { "Notify" }, budget.as_millis());
+    PINS.lock().clear(); TOK_V.store(false, Ordering::Relaxed); LOG_ON.store(false, Ordering::Relaxed); *LAST_PANIC.lock() = None;
+    let cache: Arc<Cache> = Arc::new(Cache::new(cap, if poll { UnpinStrategy::Poll } else { UnpinStrategy::Notify }, MaintenanceMode::Piggyback));
+    let stop = Arc::new(AtomicBool::new(false)); let panicked = Arc::new(AtomicBool::new(false));
+    // per group: number of successful inserts; key i of the group is finished once it has been inserted twice
+    let counters: Vec<Arc<AtomicU64>> = (0..groups).map(|_| Arc::new(AtomicU64::new(0))).collect();
+    let removed_total = Arc::new(AtomicU64::new(0));
+    let ins = |cache: &Cache, k: u64| cache.entry(k, |e| match e { Entry::Vacant(x) => { x.insert(k); true } Entry::Occupied(_) => false });
+    let mut hs = vec![];
+    for g in 0..groups {
+        let base = (g + 1) << 32;
+        for _ in 0..inserters {
+            let (cache, stop, panicked, ctr) = (cache.clone(), stop.clone(), panicked.clone(), counters[g as usize].clone());
+            hs.push(std::thread::spawn(move || { let res = catch_unwind(AssertUnwindSafe(|| {
+                while !stop.load(Ordering::Relaxed) { let k = base + ctr.load(Ordering::SeqCst) / 2; if ins(&cache, k) { ctr.fetch_add(1, Ordering::SeqCst); } } }));
+                if res.is_err() { panicked.store(true, Ordering::SeqCst); stop.store(true, Ordering::SeqCst); } }));
+        }
+        let (cache, stop, panicked, ctr, removed_total) = (cache.clone(), stop.clone(), panicked.clone(), counters[g as usize].clone(), removed_total.clone());
+        hs.push(std::thread::spawn(move || { let res = catch_unwind(AssertUnwindSafe(|| {
+            while !stop.load(Ordering::Relaxed) {
+                let done = ctr.load(Ordering::SeqCst);
+                if done % 2 == 1 {
+                    let k = base + done / 2;
+                    let rm = cache.entry(k, |e| match e { Entry::Occupied(o) => Some(o.remove()), Entry::Vacant(_) => None });
+                    if rm.is_some() { removed_total.fetch_add(1, Ordering::Relaxed); while ctr.load(Ordering::SeqCst) == done && !stop.load(Ordering::Relaxed) { std::hint::spin_loop(); } }
+                } else { std::hint::spin_loop(); }
+            } }));
+            if res.is_err() { panicked.store(true, Ordering::SeqCst); stop.store(true, Ordering::SeqCst); } }));
+    }
+    let start = std::time::Instant::now();
+    while !stop.load(Ordering::Relaxed) && start.elapsed() < budget { std::thread::sleep(std::time::Duration::from_millis(2)); }
+    stop.store(true, Ordering::SeqCst);
+    for h in hs { let _ = h.join(); }
+    let seqs: u64 = counters.iter().map(|c| c.load(Ordering::SeqCst) / 2).sum();
+    rep.runs += 1; rep.ops += seqs; rep.rr_sequences += seqs; rep.rr_removes += removed_total.load(Ordering::Relaxed);
+    if panicked.load(Ordering::SeqCst) { rep.fails.push((panic_sig(), "a cache call panicked in a remove/re-insert thread".into(), desc)); std::mem::forget(cache); return; }
+    let (w, _, m) = caps_float(cap); let maxc = w + m;
+    let r2 = catch_unwind(AssertUnwindSafe(|| {
+        let noop = |round: u64| for i in 0..70u64 { cache.unpin(u64::MAX - i - 100 * round); };
+        let count = |fill_hi: u64| { let mut n = 0usize; let mut old = 0usize;
+            for g in 0..groups { let base = (g + 1) << 32; for i in 0..=counters[g as usize].load(Ordering::SeqCst) / 2 + 1 { if cache.entry(base + i, |e| matches!(e, Entry::Occupied(_))) { n += 1; old += 1; } } }
+            for k in 0..fill_hi { if cache.entry((1u64 << 60) + k, |e| matches!(e, Entry::Occupied(_))) { n += 1; } }
+            (n, old) };
+        noop(0);
+        let (n1, _) = count(0);
+        let fill = (maxc + 40) as u64;
+        for k in 0..fill { ins(&cache, (1u64 << 60) + k); }
+        noop(1);
+        let (n2, old2) = count(fill);
+        (n1, n2, old2, fill)
+    }));
+    match r2 {
+        Ok((n1, n2, old2, fill)) => {
+            rep.rr_max_resident = rep.rr_max_resident.max(n1.max(n2) as u64);
+            if n1 > maxc || n2 > maxc { rep.fails.push((SIG_MT_LEAK.into(), format!("after {seqs} remove/re-insert sequences, threads stopped, two maintenance passes, nothing pinned, only no-op notifications buffered: {n1} entries resident, capacity {maxc}; after {fill} newer keys went through the cache and two more passes: {n2} resident, {old2} of them keys of the remove/re-insert streams — resident entries the policy does not track (never evicted)"), desc)); }
+            drop(cache); }
+        Err(_) => { rep.fails.push((panic_sig(), "a cache call panicked while quiescing after remove/re-insert".into(), desc)); std::mem::forget(cache); }
+    }
 }
 
 // lock-table glue, replicated from crates/qbice/src/engine/computation_graph/query_lock_manager.rs
@@ -696,10 +771,11 @@ fn main() {
         } else { raw };
         if case.starts_with("mt-") {
             let seed: u64 = case.split_whitespace().find_map(|w| w.strip_prefix("seed=")).and_then(|x| x.parse().ok()).unwrap_or(1);
-            let mut rep = MtReport { runs: 0, ops: 0, fails: vec![] };
+            let mut rep = MtReport::default();
             let ms: u64 = case.split_whitespace().find_map(|w| w.strip_prefix("ms=")).and_then(|x| x.parse().ok()).unwrap_or(500);
             for _ in 0..5 {
-                if case.starts_with("mt-lock-threads") { mt_lock_threads(seed, std::time::Duration::from_millis(ms * 4), &mut rep) }
+                if case.starts_with("mt-remove-reinsert") { mt_remove_reinsert(seed, std::time::Duration::from_millis(ms * 4), &mut rep) }
+                else if case.starts_with("mt-lock-threads") { mt_lock_threads(seed, std::time::Duration::from_millis(ms * 4), &mut rep) }
                 else if case.starts_with("mt-lock") { mt_lock_run(seed, &mut rep) } else { mt_cache_run(seed, &mut rep) }
                 if !rep.fails.is_empty() { break; }
             }
@@ -781,7 +857,7 @@ fn main() {
             }
         }
         // part 2
-        let mut rep = MtReport { runs: 0, ops: 0, fails: vec![] };
+        let mut rep = MtReport::default();
         let skip_mt = envn("LFU_SKIP_MT").unwrap_or(0) > 0;
         let (n_mt, n_lock) = if skip_mt { (0, 0) } else if quick { (3, 3) } else { (16, 16) };
         for i in 0..n_mt { mt_cache_run(a.seed.wrapping_mul(1000).wrapping_add(i), &mut rep); }
@@ -793,10 +869,17 @@ fn main() {
         for i in 0..n_st { mt_lock_threads(a.seed.wrapping_mul(1000).wrapping_add(i), std::time::Duration::from_millis(st_ms), &mut rep);
             if rep.fails.iter().filter(|f| f.0 == "lock-split").count() >= 2 { break; } }
         strat.insert("mt-lock-threads runs", n_st); strat.insert("mt-lock-threads rounds", rep.ops - before);
+        // remove vs re-insert (LFU_RR_RUNS / LFU_RR_MS override)
+        let (n_rr, rr_ms) = if skip_mt { (0u64, 0u64) } else if quick { (3u64, 500u64) } else { (12, 1500) };
+        let n_rr = envn("LFU_RR_RUNS").unwrap_or(n_rr); let rr_ms = envn("LFU_RR_MS").unwrap_or(rr_ms);
+        for i in 0..n_rr { mt_remove_reinsert(a.seed.wrapping_mul(1000).wrapping_add(i), std::time::Duration::from_millis(rr_ms), &mut rep);
+            if rep.fails.iter().filter(|f| f.0 == SIG_MT_LEAK).count() >= 2 { break; } }
+        strat.insert("mt-remove-reinsert runs", n_rr); strat.insert("mt-remove-reinsert sequences", rep.rr_sequences); strat.insert("mt-remove-reinsert removals", rep.rr_removes);
+        let rr_ops = rep.rr_sequences;
         evals += rep.runs;
         if stopped_early { strat.insert("shard stopped early after 60 oracle failures", 1); }
         strat.insert("mt-cache runs", n_mt); strat.insert("mt-lock-table runs", n_lock);
-        strat.insert("mt-cache ops", mt_cache_ops); strat.insert("mt-lock-table acquisitions", rep.ops - mt_cache_ops);
+        strat.insert("mt-cache ops", mt_cache_ops); strat.insert("mt-lock-table acquisitions", rep.ops - mt_cache_ops - rr_ops);
         fails.extend(rep.fails);
     }
 
